@@ -9,7 +9,10 @@
 namespace sim {
 AllocCfg g_alloc;
 
+bool g_rawMemory = false; // SIM_RAW_MEMORY=1: leave fresh heap/stack memory untouched so a definedness checker can see it
+
 __attribute__((noinline)) void scribbleStack(unsigned char fill) {
+	if (g_rawMemory) return;
 	volatile unsigned char buf[48 * 1024];
 	memset(const_cast<unsigned char*>(buf), fill, sizeof buf);
 	__asm__ volatile("" : : "r"(buf) : "memory");
